@@ -141,6 +141,7 @@ func runC06(w *World, r *Report) {
 	c06Validator(w, r)
 	c06Template(w, r)
 	c06ClientOnly(w, r, ef)
+	c06CmdKeepsDryRun(w, r)
 }
 
 // predicateFolds: all feasible returns of pred evaluate to the wanted constant under the mode.
@@ -460,4 +461,36 @@ func memoryStoreValue(w *World, v ssa.Value) (bool, string) {
 		}
 	}
 	return false, "storage.Init of something other than a fresh driver.NewMemory()"
+}
+
+// c06CmdKeepsDryRun: the command layer may force a dry run on (helm template), never off: once the
+// flag was parsed into the action, nothing in pkg/cmd assigns the constant false to it.
+func c06CmdKeepsDryRun(w *World, r *Report) {
+	r.Rule("C06/CMD-KEEPS-DRY-RUN", "nothing in pkg/cmd assigns the constant false to the DryRun field of an action (a helper that borrows the flag puts back what it found)", 1)
+	n, total := 0, 0
+	for _, fn := range w.HelmFuncs() {
+		if !strings.HasSuffix(fnPkgPath(fn), "/pkg/cmd") || strings.HasSuffix(w.FileOf(fn), "_test.go") {
+			continue
+		}
+		total++
+		for _, b := range fn.Blocks {
+			for _, in := range b.Instrs {
+				st, ok := in.(*ssa.Store)
+				if !ok {
+					continue
+				}
+				p, t, f := fieldNameOf(st.Addr)
+				if p != actionPkg || f != "DryRun" {
+					continue
+				}
+				if cb, isC := constBool(st.Val); isC && !cb {
+					n++
+					r.Bad("C06/CMD-KEEPS-DRY-RUN", fmt.Sprintf("%s/%s.DryRun#%d", FuncName(fn), t, n), w.InstrPos(st), "pkg/cmd assigns false to "+t+".DryRun: a --dry-run given on the command line is switched off for what runs afterwards")
+				}
+			}
+		}
+	}
+	if n == 0 {
+		r.OK("C06/CMD-KEEPS-DRY-RUN", "none", "-", fmt.Sprintf("%d functions of pkg/cmd scanned, none assigns false to a DryRun field", total))
+	}
 }
